@@ -113,23 +113,40 @@ func (e *Exec) rtIntrinsic(name string, fn *ssa.Function, args []Value) (Value, 
 		}
 		return e.nilErr(), true
 	case "NondetAddr":
+		// class 0: canonical bech32 of 20 arbitrary bytes; 1: upper-case spelling; 2: a short junk
+		// string; 3: canonical spelling with one leading space. The class is a symbolic value, the
+		// string is an ite-merge of the four spellings (no fork).
 		n := str(0)
-		cls := e.choice(3, n+"_class")
-		e.addNondet(NondetRec{Name: n + "_class", Kind: "const", Const: fmt.Sprint(cls)})
-		if cls == 2 {
-			junk := e.nondetBytes(n+"_junk", 6, false, true)
-			return &StructV{f: []*Cell{{v: junk}, {v: tb.ff}, {v: &SliceV{len: tb.BV(0, 64), gocap: tb.BV(0, 64), isNil: tb.tt}}}}, true
-		}
+		cls := tb.Sym(n+"_class", 8)
+		e.addPC(tb.UleRaw(cls, tb.BV(3, 8)))
+		e.addNondet(NondetRec{Name: n + "_class", Kind: "uint", T: cls})
+		junk := e.nondetBytes(n+"_junk", 6, false, true)
 		bz := e.nondetBytes(n+"_bytes", 20, false, false)
 		e.addPC(tb.Eq(bz.len, tb.BV(20, 64)))
 		bz.len, bz.gocap, bz.minLen = tb.BV(20, 64), tb.BV(20, 64), 20
-		var s *SliceV
-		if cls == 0 {
-			s = e.b32Encode(bz)
-		} else {
-			s = e.b32EncodeUpper(bz)
+		lo := e.b32Encode(bz)
+		up := e.b32EncodeUpper(bz)
+		is := func(k int64) *Term { return tb.Eq(cls, tb.BV(k, 8)) }
+		L := int(lo.len.i64())
+		a := &Alloc{}
+		for i := 0; i < L+1; i++ {
+			var pad *Term
+			if i == 0 {
+				pad = tb.BV(' ', 8)
+			} else {
+				pad = e.byteAt(lo, i-1)
+			}
+			a.b = append(a.b, tb.Ite(is(0), e.byteAt(lo, i), tb.Ite(is(1), e.byteAt(up, i), tb.Ite(is(2), e.byteAt(junk, i), pad))))
 		}
-		return &StructV{f: []*Cell{{v: s}, {v: tb.tt}, {v: bz}}}, true
+		ln := tb.Ite(is(0), lo.len, tb.Ite(is(1), up.len, tb.Ite(is(2), junk.len, tb.BV(int64(L+1), 64))))
+		s := (&SliceV{a: a, len: ln, gocap: ln, isStr: true, isNil: tb.ff}).withMax(L + 1)
+		valid := tb.Ule(cls, tb.BV(1, 8))
+		// a string with a leading space is not a bech32 address
+		padded := &SliceV{a: a, len: tb.BV(int64(L+1), 64), gocap: tb.BV(int64(L+1), 64), isStr: true, isNil: tb.ff, minLen: L + 1}
+		_ = padded
+		sp := e.packBytes(s, strCap)
+		e.addPC(tb.Implies(is(3), tb.Not(tb.UF("b32ok", 0, sp))))
+		return &StructV{f: []*Cell{{v: s}, {v: valid}, {v: bz}}}, true
 
 	case "Assume":
 		c := args[0].(*Term)
@@ -175,6 +192,81 @@ func (e *Exec) rtIntrinsic(name string, fn *ssa.Function, args []Value) (Value, 
 		return tb.Or(ts...), true
 	case "Implies":
 		return tb.Implies(args[0].(*Term), args[1].(*Term)), true
+	case "ByteAt":
+		sv := e.asBytes(args[0], name)
+		i := args[1].(*Term)
+		if !i.isConst() {
+			e.fail("ByteAt: index must be concrete")
+		}
+		k := int(i.i64())
+		if k < 0 || k >= e.reprCap(sv) {
+			return tb.BV(0, 8), true
+		}
+		return tb.Ite(tb.Ult(tb.BV(int64(k), 64), sv.len), e.byteAt(sv, k), tb.BV(0, 8)), true
+	case "SubBytes":
+		b := e.asBytes(args[0], name)
+		off, n := args[1].(*Term), args[2].(*Term)
+		if !off.isConst() || !n.isConst() {
+			e.fail("SubBytes: offset and length must be concrete")
+		}
+		o, k := int(off.i64()), int(n.i64())
+		a := &Alloc{}
+		rc := e.reprCap(b)
+		for i := 0; i < k; i++ {
+			if o+i < rc {
+				x := e.byteAt(b, o+i)
+				if o+i >= b.minLen {
+					x = tb.Ite(tb.Ult(tb.BV(int64(o+i), 64), b.len), x, tb.BV(0, 8))
+				}
+				a.b = append(a.b, x)
+			} else {
+				a.b = append(a.b, tb.BV(0, 8))
+			}
+		}
+		l := tb.BV(int64(k), 64)
+		return (&SliceV{a: a, len: l, gocap: l, isNil: tb.ff, minLen: k}).withMax(k), true
+	case "Keccak":
+		return e.keccak(e.asBytes(args[0], name)), true
+	case "Recover":
+		d, sg := e.asBytes(args[0], name), e.asBytes(args[1], name)
+		var hp, sp []*Term
+		for i := 0; i < 32; i++ {
+			hp = append(hp, e.byteAt(d, i))
+		}
+		for i := 0; i < 65; i++ {
+			sp = append(sp, e.byteAt(sg, i))
+		}
+		hh, ss := tb.Concat(hp...), tb.Concat(sp...)
+		ok := tb.And(tb.Eq(d.len, tb.BV(32, 64)), tb.Eq(sg.len, tb.BV(65, 64)), tb.Ult(e.byteAt(sg, 64), tb.BV(4, 8)), tb.UF("rec_ok", 0, hh, ss))
+		key := e.bytesFromTerm(tb.UF("rec_key", 65*8, hh, ss), 65, false)
+		return TupleV{key, ok}, true
+	case "EthAddr":
+		k := e.asBytes(args[0], name)
+		var xs, ys []*Term
+		xs = append(xs, tb.BV(0, bigW-256))
+		ys = append(ys, tb.BV(0, bigW-256))
+		for i := 1; i < 33; i++ {
+			xs = append(xs, e.byteAt(k, i))
+		}
+		for i := 33; i < 65; i++ {
+			ys = append(ys, e.byteAt(k, i))
+		}
+		x, y := tb.Concat(xs...), tb.Concat(ys...)
+		out := tb.UF("ethaddr", 160, x, y)
+		e.injective("ethaddr", tb.Concat(x, y), out)
+		return e.bytesFromTerm(out, 20, false), true
+	case "FromHex":
+		return e.fromHex(e.asBytes(args[0], name)), true
+	case "BytesLess":
+		return e.bytesLess(e.asBytes(args[0], name), e.asBytes(args[1], name)), true
+	case "LowerEq":
+		got, sv := e.asBytes(args[0], name), e.asBytes(args[1], name)
+		return e.bytesEqual(got, e.toLower(sv)), true
+	case "ModuleAddr":
+		r, _ := e.intrinsic("github.com/cosmos/cosmos-sdk/x/auth/types.NewModuleAddress", nil, args)
+		return r, true
+	case "IsASCII":
+		return e.allASCII(e.asBytes(args[0], name)), true
 	case "Concrete":
 		mx := args[1].(*Term)
 		if !mx.isConst() {
@@ -182,7 +274,9 @@ func (e *Exec) rtIntrinsic(name string, fn *ssa.Function, args []Value) (Value, 
 		}
 		v := e.concretize(args[0].(*Term), int(mx.i64()), "Concrete")
 		return tb.BV(int64(v), 64), true
-	case "Ite8", "Ite64":
+	case "envEventFailures":
+		return tb.BV(int64(e.envOf(args[0]).eventErrs), 64), true
+	case "Ite8", "Ite64", "IteInt":
 		return tb.Ite(args[0].(*Term), args[1].(*Term), args[2].(*Term)), true
 	case "IsZero":
 		s := e.asBytes(args[0], name)
